@@ -3295,12 +3295,18 @@ XPath::stepPattern(
 
             opPos += 3;
 
-            score = NodeTester(
+            // The step is on the attribute axis, so only an attribute
+            // can match, whatever the node test is ("@comment()" does
+            // not match a comment).
+            if (context->getNodeType() == XalanNode::ATTRIBUTE_NODE)
+            {
+                score = NodeTester(
                             *this,
                             executionContext,
                             opPos,
                             argLen,
-                            XPathExpression::eFROM_ATTRIBUTES)(*context, context->getNodeType());
+                            XPathExpression::eFROM_ATTRIBUTES)(*context, XalanNode::ATTRIBUTE_NODE);
+            }
         }
         break;
 
@@ -4700,7 +4706,12 @@ XPath::NodeTester::NodeTester(
         break;
 
     case XPathExpression::eNODETYPE_NODE:
-        m_testFunction = &NodeTester::testNode;
+        // On the attribute axis, node() selects the attributes, which
+        // the namespace declarations are not.
+        m_testFunction =
+            stepType == XPathExpression::eFROM_ATTRIBUTES ?
+                &NodeTester::testAttributeTotallyWild :
+                &NodeTester::testNode;
         break;
 
     case XPathExpression::eNODETYPE_ROOT:
